@@ -184,6 +184,7 @@ fn unit_from(v: &Value) -> UnitCfg {
     u.keep_generics = v.get("keep_generics").and_then(|x| x.as_bool()).unwrap_or(false);
     u.drop_body = v.get("drop_body").and_then(|x| x.as_bool()).unwrap_or(false);
     u.try_conv = v.get("try_conv").and_then(|x| x.as_bool()).unwrap_or(false);
+    let bare = v.get("bare").and_then(|x| x.as_bool()).unwrap_or(false);
     if let Some(a) = v.get("str_slices").and_then(|x| x.as_array()) {
         u.str_slices = a.iter().map(|x| x.as_str().unwrap_or("").to_string()).collect();
     }
@@ -202,6 +203,12 @@ fn unit_from(v: &Value) -> UnitCfg {
     }
     if let Some(a) = v.get("hints").and_then(|x| x.as_array()) {
         u.hints = a.clone();
+    }
+    if bare {
+        u.loops.clear();
+        u.closures.clear();
+        u.closures_by_text.clear();
+        u.hints.clear();
     }
     u
 }
@@ -1048,6 +1055,29 @@ impl<'a, 'b, 'ast> Visit<'ast> for BodyV<'a, 'b> {
                 self.fc.warnings.push(format!("macro {name}! body not parsed as expressions"));
             }
             return;
+        }
+        if name == "matches" {
+            // matches!(EXPR, PAT [if GUARD]): visit EXPR and GUARD
+            let parsed = mac.parse_body_with(|input: syn::parse::ParseStream| {
+                let e: Expr = input.parse()?;
+                let _c: Token![,] = input.parse()?;
+                let _p = Pat::parse_multi_with_leading_vert(input)?;
+                let g = if input.peek(Token![if]) {
+                    let _i: Token![if] = input.parse()?;
+                    Some(input.parse::<Expr>()?)
+                } else {
+                    None
+                };
+                let _ = input.parse::<Option<Token![,]>>()?;
+                Ok((e, g))
+            });
+            if let Ok((e, g)) = parsed {
+                self.visit_expr(&e);
+                if let Some(g) = g {
+                    self.visit_expr(&g);
+                }
+                return;
+            }
         }
         if name == "vec" || name == "matches" || name == "panic" || name == "unimplemented" {
             if let Ok(args) = mac.parse_body_with(Punctuated::<Expr, Token![,]>::parse_terminated) {
@@ -2172,9 +2202,13 @@ fn main() {
             }
         }
         // missing anchors
-        for at in units.keys() {
-            if !found_units.contains(at) {
-                fc.errors.push(format!("{fname}: unit `{at}` not found (anchor lost)"));
+        let mut missing_units: Vec<String> = vec![];
+        for (at, u) in units.iter() {
+            if !found_units.contains(at) && !u.id.starts_with("auto:") {
+                // the function no longer exists (renamed, inlined, removed): its contract cannot be
+                // checked; callers are verified without it
+                fc.degraded.push(format!("{fname}: unit `{at}` ({}) not found: its contract is not checked in this run", u.id));
+                missing_units.push(u.id.clone());
             }
         }
         for k in &keep_items {
@@ -2204,7 +2238,7 @@ fn main() {
         out_files.insert(
             fname.clone(),
             json!({ "segments": rendered, "dropped": dropped, "warnings": fc.warnings, "degraded": fc.degraded,
-                    "auto_units": auto_names, "auto_items": auto_items, "ro_violations": fc.ro_violations }),
+                    "auto_units": auto_names, "auto_items": auto_items, "ro_violations": fc.ro_violations, "missing_units": missing_units }),
         );
     }
     let out = json!({ "files": out_files, "errors": all_errors, "rule_counts": total_rules });
